@@ -363,7 +363,8 @@ def shrink(sub, case):
 def shard(ctx, n):
     excl_call_in_if = ctx.is_excluded("call_in_ifexpr_branch")
     strat = st.fixed_dictionaries({"method": methods(PROFILE), "split": st.integers(0, 7),
-                                   "mode": st.sampled_from(["stmt", "stmt_inline", "lowered", "lowered_inline", "lowered_inline"])})
+                                   "mode": st.sampled_from(["stmt", "stmt", "stmt_inline", "stmt_inline", "lowered", "lowered_inline",
+                                                            "lowered_inline"])})
 
     def body(case):
         method = case["method"]
